@@ -461,6 +461,25 @@ def Nth(s, i):
         return Term('str.at', (s, i), STR)
     if s.op == 'seq.unit' and i.op == 'const' and i.val == 0:
         return s.args[0]
+    if s.op == 'seq.++' and len(s.args) <= 4:
+        # nth over a concatenation as a case split: exposes nth(part, i) to quantifier matching
+        parts = list(s.args)
+        off = IntC(0)
+        res = None
+        cases = []
+        for p in parts:
+            cases.append((off, p))
+            off = Add(off, Len(p))
+        res = None
+        for k in range(len(cases) - 1, -1, -1):
+            o, p = cases[k]
+            idx = Sub(i, o)
+            elem = p.args[0] if p.op == 'seq.unit' else Term('seq.nth', (p, idx), seq_elem(s.sort))
+            if res is None:
+                res = elem
+            else:
+                res = Ite(Lt(i, Add(o, Len(p))), elem, res)
+        return res
     return Term('seq.nth', (s, i), seq_elem(s.sort))
 
 
